@@ -59,6 +59,34 @@ def scratch(prefix="gv"):
     return tempfile.mkdtemp(prefix=prefix + "-", dir=base)
 
 
+_cache_hold = None
+
+
+def ensure_disk(path="/tmp", need_gb=12):
+    """Every run compiles hundreds of synthesized packages; Go's build cache keeps all of them (it reached 128 GB during
+    development). When the volume runs low the cache is dropped — it only costs rebuild time, never a verdict. Dropping it
+    while another check is building makes that build fail spuriously, so it happens only when no other check process is
+    alive (exclusive lock on .work/cachelock; every check holds it shared for its lifetime)."""
+    global _cache_hold
+    os.makedirs(WORK, exist_ok=True)
+    lockp = os.path.join(WORK, "cachelock")
+    try:
+        if shutil.disk_usage(path).free < need_gb << 30:
+            f = open(lockp, "w")
+            try:
+                fcntl.flock(f, fcntl.LOCK_EX | fcntl.LOCK_NB)
+                subprocess.run(["go", "clean", "-cache"], env=goenv(), stdout=subprocess.DEVNULL, stderr=subprocess.DEVNULL, timeout=1800)
+            except OSError:
+                pass
+            finally:
+                f.close()
+    except Exception:
+        pass
+    if _cache_hold is None:
+        _cache_hold = open(lockp, "w")
+        fcntl.flock(_cache_hold, fcntl.LOCK_SH)
+
+
 # ----------------------------------------------------------------------------- builds
 
 def sync_gosum():
@@ -202,6 +230,7 @@ class Result:
     def __init__(self, pid, tier, seed, level):
         self.pid, self.tier, self.seed, self.level = pid, tier, seed, level
         self.t0 = time.time()
+        ensure_disk()
         self.violations = []          # (replay_path, found_input: bool, text)
         self.known = []               # KNOWN-FINDING lines
         self.cov = {"obligations": 0, "discharged": 0, "checker_cmd": "", "trusted_base": [],
